@@ -387,7 +387,16 @@ def _F28():
     return False
 
 
-REPLAYS = {'F24': _F24, 'F25': _F25, 'F26': _F26, 'F27': _F27, 'F28': _F28, 'F1-linear': _F1('lin'), 'F1-quadratic': _F1('quad'), 'F1-cubic': _F1('cubic'), 'F2': _F2, 'F3': _F3, 'F4': _F4,
+def _F29():
+    """UMNN integrand activation: elu(x) + 1 = 0 exactly for x < -37 before the fix (true value exp(x))"""
+    import importlib
+    M = importlib.import_module('nflows.transforms.UMNN.MonotonicNormalizer')
+    v = M.ELUPlus()(torch.tensor([-40.0, -112.0, -700.0, 0.0, 2.5], dtype=torch.float64))
+    want = torch.tensor([math.exp(-40.0), math.exp(-112.0), math.exp(-700.0), 1.0, 3.5], dtype=torch.float64)
+    return not bool(((v - want).abs() <= 1e-12 * want).all())
+
+
+REPLAYS = {'F24': _F24, 'F25': _F25, 'F26': _F26, 'F27': _F27, 'F28': _F28, 'F29': _F29, 'F1-linear': _F1('lin'), 'F1-quadratic': _F1('quad'), 'F1-cubic': _F1('cubic'), 'F2': _F2, 'F3': _F3, 'F4': _F4,
            'F6': _F6, 'F9': _F9, 'F12': _F12, 'F13': _F13, 'F16': _F16, 'F17': _F17}
 
 
